@@ -8,21 +8,30 @@ THEOREMS = ["Mesa.Agents." + t for t in (
     "C04_log_is_invocations", "C04_never_twice_only_members_in_order", "C04_invoked_iff_alive_at_turn",
     "C04_survivor_invoked_exactly_once", "C04_removed_unheld_never_invoked", "C04_created_during_call_never_invoked",
     "C04_shuffle_do_order", "C04_map_results_aligned", "C04_groupby_do_is_regrouped_walk",
-    "C04_groupby_map_like_do", "C04_exactly_once_all_histories")]
+    "C04_groupby_map_like_do", "C04_exactly_once_all_histories",
+    "C04_exception_ends_the_call_at_the_raiser", "C04_map_and_groupby_under_exceptions",
+    "C04_set_edits_invisible_to_the_walk", "C04_every_visiting_order_never_twice_survivors_once",
+    "C04_shuffle_do_and_groupby_do_exactly_once", "C04_activation_leaves_program_made_sets_as_they_are",
+    "C04_groupby_map_results_aligned")]
 COUNTS = {"quick": 1000, "thorough": 150000}
 TRUSTED = [
     "CPython refcounting + weakref: an agent dies (its weak references clear) at the moment its model deregisters it and the program holds no reference; no reference cycles through agents",
     "WeakKeyDictionary.keyrefs() lists exactly the live keys in insertion order",
     "CPython random.shuffle is built on _randbelow only (scripted generator, Base/Rng.lean follows it draw by draw)",
-    "agent callbacks are scripts (remove self / remove other / create / drop reference); arbitrary Python side effects are not modelled",
+    "agent callbacks are scripts (remove self / remove other / create / drop reference / add to or discard from a program-made set, "
+    "the activated one included / raise at the end); arbitrary Python side effects are not modelled",
 ]
-ASSUMPTIONS = ["callbacks terminate and do not raise", "the callback does not mutate the activated set object itself other than through registration/removal of agents"]
+ASSUMPTIONS = ["callbacks terminate", "callbacks edit only program-made sets directly (add / discard), never the registry's own sets "
+               "(documented as unsupported by mesa)"]
 RULE = ("random histories: 1-2 models, agents held by the program or not, per-agent callback scripts (nothing / remove self / "
-        "remove an earlier or later agent / create 0-2 agents in any model / drop a reference), activations do / shuffle_do / map / "
+        "remove an earlier or later agent / create 0-2 agents in any model / drop a reference / add an agent to or discard one from "
+        "a program-made set, often the activated one / finally raise an exception), activations do / shuffle_do / map / "
         "GroupBy.do / GroupBy.map by method name (plain method, per-instance override, staticmethod, classmethod) and by callable, "
         "arguments positional / keyword, over model.agents, agents_by_type[T] and program-made sets of truthy and falsy agents; "
         "plus, exhaustively, every single-action script family over n <= 3 agents x every held/unheld pattern (quick: do; "
-        "thorough: do, shuffle_do, map, GroupBy.do, and n = 4 for do); "
+        "thorough: do, shuffle_do, map, GroupBy.do, and n = 4 for do), and every family over a program-made activated set of "
+        "n <= 3 agents in which each agent does nothing / raises / removes itself (and raises) / discards agent j from the activated "
+        "set / removes and discards j / adds an outsider (quick: do, and n <= 2 for the other four kinds; thorough: all five kinds); "
         "non-trivial = an activation during which an agent was removed or created and at least two callbacks ran")
 
 
@@ -33,14 +42,17 @@ def generate(rng, tier, count):
 
 def builtin_corpus():
     """exhaustive small scope, run on every check: quick n <= 3 with `do` (1 836 scenarios); thorough adds
-    shuffle_do / map / GroupBy.do for n <= 3 and all single-action script families for n = 4"""
+    shuffle_do / map / GroupBy.do for n <= 3 and all single-action script families for n = 4; plus the families of
+    `exhaustive_edits` (callbacks that raise / edit the activated program-made set)"""
     import os
     import sys
 
     thorough = "thorough" in sys.argv or os.environ.get("VERIF_TIER") == "thorough"
     if thorough:
-        return list(A.exhaustive_activation(3, ["do", "shuffledo", "map", "gdo"], True, n4=True))
-    return list(A.exhaustive_activation(3, ["do"], True))
+        return list(A.exhaustive_activation(3, ["do", "shuffledo", "map", "gdo"], True, n4=True)) \
+            + list(A.exhaustive_edits(3, ["do", "shuffledo", "map", "gdo", "gmap"]))
+    return list(A.exhaustive_activation(3, ["do"], True)) + list(A.exhaustive_edits(3, ["do"])) \
+        + list(A.exhaustive_edits(2, ["shuffledo", "map", "gdo", "gmap"]))
 
 
 EXHAUSTIVE = {"quick": True, "thorough": True}
